@@ -169,6 +169,7 @@ async def do_install(hass, case):
     persisted = [None if case.get("rec0") is None else dict(case["rec0"])]
     stored = [copy.deepcopy(data)]          # the whole entry data as last handed to async_update_entry (= .storage)
     in_install = [False]
+    other_actor = [False]
     updates = [0]
     real_update = hass.config_entries.async_update_entry
 
@@ -178,7 +179,7 @@ async def do_install(hass, case):
             stored[0] = copy.deepcopy(dict(data_arg))                      # snapshot: later in-place edits do not count
             rec = data_arg.get(CONF_INSTALLED_PACKAGES)
             persisted[0] = None if rec is None else dict(rec)
-        if in_install[0]:
+        if in_install[0] and not other_actor[0]:        # updates made by install_requirements itself
             updates[0] += 1
         return real_update(*a, **k)
 
@@ -191,17 +192,23 @@ async def do_install(hass, case):
         await hass.config_entries.flow.async_init(DOMAIN, context={"source": SOURCE_IMPORT}, data=P.PYSCRIPT_SCHEMA(yaml_conf(allow)))
         await hass.async_block_till_done()
 
-    async def reload_yaml(allow):
+    async def reload_yaml(allow, settle=True):
         """pyscript.reload / entry reload: update_yaml_config() re-reads configuration.yaml"""
         async def fake_yaml(_hass):
             return {DOMAIN: yaml_conf(allow)}
 
-        with patch.object(P, "async_hass_config_yaml", side_effect=fake_yaml):
-            await P.update_yaml_config(hass, entry)
-        await hass.async_block_till_done()
+        other_actor[0] = True
+        try:
+            with patch.object(P, "async_hass_config_yaml", side_effect=fake_yaml):
+                await P.update_yaml_config(hass, entry)
+        finally:
+            other_actor[0] = False
+        if settle:          # not while a run is suspended: block_till_done would wait for the run's own executor job
+            await hass.async_block_till_done()
 
     upd_patch = patch.object(hass.config_entries, "async_update_entry", side_effect=tracking_update)
     upd_patch.start()
+    user_allow = [bool(data[CONF_ALLOW_ALL_IMPORTS])]      # allow_all_imports in the user's configuration.yaml
     try:
         for st in case["steps"]:
             for k, v in st.get("ext", []):
@@ -217,13 +224,21 @@ async def do_install(hass, case):
             # reloads of the YAML configuration, all through pyscript's own code; a changed allow_all_imports is a YAML edit
             # followed by a reload.  Nothing else touches the entry.
             events = list(st.get("pre", []))
-            if not events and bool(entry.data.get(CONF_ALLOW_ALL_IMPORTS)) != bool(st["allow"]):
-                events = ["reload"]
+            if not events and user_allow[0] != bool(st["allow"]):
+                events = ["reload"]               # the user edited the YAML: it takes effect through pyscript's reload
+            user_allow[0] = bool(st["allow"]) if events else user_allow[0]
             for ev in events:
                 if ev == "restart":
                     await restart(st["allow"])
                 else:
                     await reload_yaml(st["allow"])
+            # a second actor while the run is suspended in one of its awaits: the user flips allow_all_imports (YAML edit +
+            # reload) during the scan of the requirement files (executor job) or during the installer call
+            during = st.get("during") or {}
+            fired = []
+            gate_allow = user_allow[0]
+            if "scan" in during:
+                gate_allow = bool(during["scan"])      # the gate is evaluated after the scan: it must see the new value
             rec_start = entry.data.get(CONF_INSTALLED_PACKAGES)
             rec_start = [[as_str(k), as_str(v)] for k, v in (rec_start or {}).items()]
             pers_start = [[as_str(k), as_str(v)] for k, v in (persisted[0] or {}).items()]
@@ -237,6 +252,10 @@ async def do_install(hass, case):
             async def fake_installer(_hass, _domain, reqs, *a, **k):
                 reqs = list(reqs)
                 calls.append(reqs)
+                if "install" in during:
+                    fired.append("install")
+                    user_allow[0] = bool(during["install"])
+                    await reload_yaml(during["install"], settle=False)
                 failed = []
                 for r in reqs:
                     parts = r.split("==")
@@ -262,13 +281,17 @@ async def do_install(hass, case):
             def wrapped_process(*a, **k):
                 with patch.object(R.glob, "glob", side_effect=rec_glob):
                     captured["table"] = real_process(*a, **k)
+                if "scan" in during:                     # we are in the executor thread; the event loop is free
+                    fired.append("scan")
+                    user_allow[0] = bool(during["scan"])
+                    asyncio.run_coroutine_threadsafe(reload_yaml(during["scan"], settle=False), hass.loop).result(timeout=60)
                 return captured["table"]
 
             kind, err = 2, None
             try:
                 with patch.object(R, "async_process_requirements", side_effect=fake_installer), \
                         patch.object(R, "installed_version", side_effect=make_lookup(env)), \
-                        patch.object(R, "process_all_requirements", side_effect=wrapped_process):
+                        patch.object(R, "process_all_requirements", new=wrapped_process):
                     in_install[0] = True
                     try:
                         await R.install_requirements(hass, entry, folder)
@@ -293,7 +316,9 @@ async def do_install(hass, case):
                 "order": canon_order(found, ids), "table": rows, "env_before": [list(x) for x in env_before], "kind": kind, "error": err,
                 "args": [as_str(x) for x in calls[0]] if len(calls) == 1 else (None if not calls else [as_str(x) for x in sum(calls, [])]),
                 "n_calls": len(calls),
-                "events": events, "rec_start": rec_start, "pers_start": pers_start, "rec_after": rec_after, "persisted": pers, "updated": updates[0] > 0, "n_updates": updates[0],
+                "events": events, "fired": fired, "gate_allow": gate_allow, "allow_user": user_allow[0],
+                "allow_live": bool(entry.data.get(CONF_ALLOW_ALL_IMPORTS)), "allow_pers": bool(stored[0].get(CONF_ALLOW_ALL_IMPORTS)),
+                "rec_start": rec_start, "pers_start": pers_start, "rec_after": rec_after, "persisted": pers, "updated": updates[0] > 0, "n_updates": updates[0],
                 "env_after": [list(x) for x in env.items()],
             })
     finally:
